@@ -246,7 +246,8 @@ class RCfg:
                  renamed=True, explicit_required=True, defaults=True,
                  descriptions=True, nothing=True, formats=True,
                  bool_lookalike_literals=True, valid_defaults_only=False,
-                 equal_to_default_kw=False):
+                 equal_to_default_kw=False, kw_max=3, literal_constraints=True,
+                 compose_bias=0):
         self.__dict__.update(locals())
         del self.__dict__["self"]
 
@@ -315,6 +316,7 @@ def _node(draw, cfg, depth, gen, kinds=None):
     inner = ["Array", "Array", "AnyOf", "OneOf", "AllOf", "Not", "Element"]
     if cfg.classes and gen.class_names:
         inner += ["Object", "Object", "Object"]
+    inner = inner + ["AnyOf", "OneOf", "AllOf", "AllOf"] * cfg.compose_bias
     pool = kinds or (leafs if depth <= 0 else leafs + inner + inner)
     kind = draw(st.sampled_from(pool))
     if kind == "Object" and not gen.class_names:
@@ -338,14 +340,26 @@ def _node(draw, cfg, depth, gen, kinds=None):
         allowed.remove("format")
     if not cfg.explicit_required and "required" in allowed:
         allowed.remove("required")
+    if not cfg.literal_constraints:
+        allowed = [k for k in allowed if k not in ("const", "enum")]
     if allowed:
-        chosen = draw(st.lists(st.sampled_from(allowed), max_size=3, unique=True))
+        chosen = draw(st.lists(st.sampled_from(allowed), max_size=cfg.kw_max, unique=True))
         for k in chosen:
             node["kw"][k] = _lit_kw(draw, cfg, k)
 
     if kind in ("AnyOf", "OneOf", "AllOf"):
         n = draw(st.integers(1, 3))
-        node["elements"] = [draw(sub_node()) for _ in range(n)]
+        if kind == "AllOf" and n > 1:
+            # satisfiable conjunctions: one arbitrary member, the others mostly untyped
+            # constraint elements (the shape the parser produces for sibling keywords)
+            main_pos = draw(st.integers(0, n - 1))
+            node["elements"] = [
+                draw(sub_node()) if (i == main_pos or draw(st.integers(0, 2)) == 0)
+                else draw(_node(cfg, depth - 1, gen, kinds=["Element"]))
+                for i in range(n)
+            ]
+        else:
+            node["elements"] = [draw(sub_node()) for _ in range(n)]
     elif kind == "Not":
         node["element"] = draw(sub_node())
     if kind in ALLOWED_SUB and depth > 0:
